@@ -125,7 +125,7 @@ PROPS = {
                 'eval (builtin/procedure.rs): the thunk built for the datum is compiled with the flag set -- if the macro-expanded datum is an application, the code object eval returns (to be entered by the re-dispatched call) ends in TCALL; Ret; pop_argc / Vm::pop / Heap::get_as_cell / Stack::push carry assumed contracts over an opaque stack (popped_value / stack_popped: what Vm::pop answers and what is left, as uninterpreted functions of heap and stack); every compile function is also proved to leave the machine registers alone (eval moves ip back afterwards)',
                 'run-time half, group runone: the TCALL arm of the real run_one is proved to rebuild the frame in place (frame_replaced): after a tail call to a closure or lambda the stack pointer is (first argument slot of the old frame) + argc + 2 -- independent of the previous stack depth --, the saved %ep / %ip / %bp of the caller are the ones of the replaced frame, the new arguments sit in order above the frame base, nothing below the frame changes, the heap is untouched; both the equal-argc in-place copy and the different-argc rebuild satisfy the same postcondition',
                 'the run_one contract is scoped by precondition to states whose next opcode is CALL, TCALL, ENTER, RET or VARARG (every other arm is then unreachable) and whose frame layout satisfies tcall_frame (bp + 5 + argc <= sp, frame_argc <= bp, stack shorter than 2^61 slots): run_count, the caller, is verified in group run against an assumed run_one and does not establish this precondition -- it is an assumption about the states compiled code reaches; read_opcode (moves %ip only), Heap::get, VCell::as_bp (Kani-checked) carry assumed contracts; Stack::get / get_mut / get_offset / get_offset_mut / get_sp / get_sp_mut / push are verified (unit stack); usize is 64 bits (global size_of usize == 8)',
-                'the same run_one contract covers CALL (pushes exactly %ep and the return address), ENTER (pushes %bp, new %bp addresses the last argument), RET (drops the whole frame, restores %ep/%ip/%bp from it, writes nothing) and VARARG (optional arguments replaced by one slot: req + 1 arguments whatever was passed; needs `a variadic code object has at least one formal`); VCell::as_argc / as_bp / as_ep / as_ip: assumed on the Verus side, checked on the real code by the complete Kani harness vcell_accessors; Vm::lambda assumed to answer the code object determined by heap and %ip.0', 'apply (builtin/procedure.rs, group cont): hands control back to the dispatching CALL / TCALL (%ip.1 - 1) with the procedure as its result and exactly the spread arguments on the stack -- the k leading arguments moved down over the procedure slot, then pointers to the cars of the m list cells (walked through the heap), then ArgumentCount(k + m); nothing below is touched, no slot is left behind; requires the argument count on the stack to be smaller than the stack pointer (true after CALL / TCALL); Vm::pop assumed', 'call/cc handing control back is decided under C05 (same group)', 'the stack never has more than isize::MAX / 2 slots (axiom_stack_len: Vec allocation limit, VCell larger than one byte) -- used for i64 index arithmetic and for `can always double`', 'NOT decided at run time: the heap objects VARARG / ENTER build; the cond / case / and / or / when / unless / let-family forms are prelude.scm macros over `if` and `lambda`, their expansion is not under contract',
+                'the same run_one contract covers CALL (pushes exactly %ep and the return address), ENTER (pushes %bp, new %bp addresses the last argument), RET (drops the whole frame, restores %ep/%ip/%bp from it, writes nothing) and VARARG (optional arguments replaced by one slot: req + 1 arguments whatever was passed; needs `a variadic code object has at least one formal`); VCell::as_argc / as_bp / as_ep / as_ip: assumed on the Verus side, checked on the real code by the complete Kani harness vcell_accessors; Vm::lambda assumed to answer the code object determined by heap and %ip.0 (and assumed total: it panics if %ip.0 does not designate a code object, which compiled code never produces); Vm::pop / Heap::get assumed total likewise (a dangling pointer makes Heap::get_at_index panic)', 'apply (builtin/procedure.rs, group cont): hands control back to the dispatching CALL / TCALL (%ip.1 - 1) with the procedure as its result and exactly the spread arguments on the stack -- the k leading arguments moved down over the procedure slot, then pointers to the cars of the m list cells (walked through the heap), then ArgumentCount(k + m); nothing below is touched, no slot is left behind; requires the argument count on the stack to be smaller than the stack pointer (true after CALL / TCALL); Vm::pop assumed', 'call/cc handing control back is decided under C05 (same group)', 'the stack never has more than isize::MAX / 2 slots (axiom_stack_len: Vec allocation limit, VCell larger than one byte) -- used for i64 index arithmetic and for `can always double`', 'NOT decided at run time: the heap objects VARARG / ENTER build; the cond / case / and / or / when / unless / let-family forms are prelude.scm macros over `if` and `lambda`, their expansion is not under contract',
                 'the contract speaks about branches that are themselves procedure calls (rt_app) or `if` forms; deeper nesting follows by the same contracts applied to the inner form, but the induction over the datum is not stated as a lemma',
                 'Cell accessor contracts (car, cdr, is_pair, is_nil, is_list, collect_vec, clone) assumed from their one-line bodies in cell.rs; Lambda::emit and Lambda::argc are verified (unit lambda; a Vec holds at most isize::MAX elements: axiom_vec_len); Lambda::binding_location assumed to answer an argument index below the argument count; core identity From<T> for T assumed (axiom_into_self); str extensionality (axiom_str_ext); a datum has fewer than 2^64 pairs (axiom_spine_fits, used for the argument counter)',
                 'executable rewrite inside compile_if: the slice-pattern match is desugared to length tests and indexing (Verus has no slice patterns)',
